@@ -17,7 +17,7 @@ func init() { Registry["C12"] = checkC12 }
 var (
 	reFirstRead = regexp.MustCompile(`\(io\.Reader(At)?\)\.Read(At)?\(alloc:buf\[c:0:c:2\](,c:0)?\)#0`)
 	reFullRead  = regexp.MustCompile(`io\.ReadFull\(\$3,alloc:buf\[c:0:c:2\]\)#0`)
-	reEnvExpr   = regexp.MustCompile(`\(\*Protocol\)\.(DecodeEnveloped\(\$0,\$2\)|readEnvelopeHeader\(\$0,.*?,\$2\))#0\.`)
+	reEnvExpr   = regexp.MustCompile(`\(\*Protocol\)\.(DecodeEnveloped(@\d+)?\(\$0,\$2\)|readEnvelopeHeader(@\d+)?\(\$0,.*?,\$2\))#0\.`)
 )
 
 // c12Inline: helpers named by the frozen expectations stay calls; any other
@@ -131,7 +131,7 @@ func checkC12(c *core.Ctx, l *core.Ledger) {
 	if f := fn("StreamReader.ReadEnvelopeBegin"); f != nil {
 		tr, _ := core.TraceSeqsInline(f, func(call ssa.CallInstruction) bool { return true }, c12Inline)
 		got := core.ResolveLit(normRepl.Replace(core.SeqString(tr)))
-		want := "[!(sr.ReadInt32($0)#0>c:0) call:sr.ReadInt32($0) call:sr.ReadInt32($0) call:sr.readStrictEnvelope($0,sr.ReadInt32($0)#0) ret(LIT{SeqID=sr.ReadInt32($0)#0},c:nil)] | [(sr.ReadInt32($0)#0>c:0) call:sr.ReadInt32($0) call:sr.ReadInt32($0) call:sr.readNonStrictEnvelope($0,sr.ReadInt32($0)#0) ret(LIT{SeqID=sr.ReadInt32($0)#0},c:nil)]"
+		want := "[!(sr.ReadInt32($0)#0>c:0) call:sr.ReadInt32($0) call:sr.ReadInt32($0) call:sr.readStrictEnvelope($0,sr.ReadInt32($0)#0) ret(LIT{SeqID=sr.ReadInt32@2($0)#0},c:nil)] | [(sr.ReadInt32($0)#0>c:0) call:sr.ReadInt32($0) call:sr.ReadInt32($0) call:sr.readNonStrictEnvelope($0,sr.ReadInt32($0)#0) ret(LIT{SeqID=sr.ReadInt32@2($0)#0},c:nil)]"
 		l.Add(core.Obligation{Rule: "ENV-SEQ", Key: "StreamReader.ReadEnvelopeBegin", Pos: c.Rel(f.Pos()), Status: st(sortEvents(got) == sortEvents(want)),
 			Detail: "first i32 > 0 selects the legacy layout (it is the name length), otherwise strict; then the seqid i32; trace " + got})
 		// order: first ReadInt32, then the name/type helper, then the seqid ReadInt32, and SeqID is the *second* read
